@@ -511,10 +511,10 @@ def run(ctx):
     for case in fixed_corpus(names):
         dispatch(ctx, impls, case, ("fixed-corpus",))
     quick = ctx.quick()
-    n_kernel = 700 if quick else 30000
-    n_table = 900 if quick else 40000
-    n_axis = 60 if quick else 2500
-    n_cli = 12 if quick else 300
+    n_kernel = 1200 if quick else 30000
+    n_table = 1600 if quick else 40000
+    n_axis = 100 if quick else 2500
+    n_cli = 20 if quick else 300
     # systematic kernel sweep: every named function x stored zeros x index order, on both implementations
     for impl in names:
         for fn in ELEMENTWISE + VECTORWISE + KERNEL_ONLY:
